@@ -20,7 +20,7 @@ URLS = {
     "R": ["https://r.example/revoke", "http://r.example/revoke", "HTTPS://r2.example/revoke"],   # index 0 https, 1 http
 }
 SECRETS = ["bbb", "p:w ä", "", "eu:s3cret"]
-REDIRS = ["https://client/cb", "https://client/other?x=1"]
+REDIRS = ["https://client/cb", "https://client/other?x=1", "https://Client.Example.COM", "http://127.0.0.1:80/callback?a=b c", "HTTPS://client.example/x/../cb#f"]
 
 
 def url7(u):
@@ -72,7 +72,7 @@ def gen(tier, rng):
         if rng.random() < 0.5:
             ops.append(op_token("body"))
         if rng.random() < 0.5:
-            ops.append(op_token("redirect", k=rng.randint(0, 1)))
+            ops.append(op_token("redirect", k=rng.randint(0, 4)))
         rng.shuffle(ops)
         out.append((line(ops), "state-combination"))
     # literals that are new in the source (gen/srclit.py): new words as secret, redirect path, endpoint path / query / host label;
